@@ -217,6 +217,9 @@ def dump_vtables(job: dict) -> dict:
             "entries": [entry(e) for e in c.vtable_entries],
             "trait_vtables": [[t.name, [entry(e) for e in es]] for t, es in c.trait_vtables.items()],
             "glue": [[t.name, n] for (t, n) in c.glue_methods if t is not c],
+            "subclasses": (None if c.subclasses() is None else sorted(x.name for x in c.subclasses())),
+            "final": {n: bool(c.is_method_final(n)) for n in sorted(by_name)},
+            "has_method": {n: bool(c.has_method(n)) for n in sorted(by_name)},
             "allow_interpreted_subclasses": bool(c.allow_interpreted_subclasses),
             "is_ext_class": bool(c.is_ext_class),
         })
